@@ -127,6 +127,17 @@ func (vc *FuncVC) enterLoopHeader(st *State, fr *Frame, from, to *ssa.BasicBlock
 			vc.addOblig(st, "glue-preserved", lname+"/glue-preserved:"+gc.Name, nil, vc.glueTerm(st, fr, gc, cut.entryPhi))
 		}
 		if spec != nil {
+			for _, c := range spec.Cand {
+				if vc.candDropped[key+"|"+fmt.Sprint(c.Ord)] || !vc.inProp(c.Tags) {
+					continue
+				}
+				g, ok := vc.tryBool(sc, c.E)
+				if ok {
+					vc.addOblig(st, "glue-preserved", fmt.Sprintf("%s/glue-preserved:candidate#%d", lname, c.Ord), nil, g)
+				}
+			}
+		}
+		if spec != nil {
 			for i, c := range spec.Decr {
 				if !vc.inProp(c.Tags) || i >= len(cut.decr0) {
 					continue
@@ -181,6 +192,17 @@ func (vc *FuncVC) enterLoopHeader(st *State, fr *Frame, from, to *ssa.BasicBlock
 		}
 	}
 	wr := vc.loopWrites(st, fr, lp)
+	if isTop && spec != nil {
+		for _, c := range spec.Cand {
+			if vc.candDropped[key+"|"+fmt.Sprint(c.Ord)] || !vc.inProp(c.Tags) {
+				continue
+			}
+			g, ok := vc.tryBool(sc, c.E)
+			if ok {
+				vc.addOblig(st, "glue-entry", fmt.Sprintf("%s/glue-entry:candidate#%d", lname, c.Ord), nil, g)
+			}
+		}
+	}
 	if isTop {
 		if !vc.glueInit[key] {
 			vc.glueInit[key] = true
@@ -240,6 +262,16 @@ func (vc *FuncVC) enterLoopHeader(st *State, fr *Frame, from, to *ssa.BasicBlock
 		newCut.glue = vc.glue[key]
 		for _, gc := range newCut.glue {
 			st.assume(vc.glueTerm(st, fr, gc, entryPhi))
+		}
+		if spec != nil {
+			for _, c := range spec.Cand {
+				if vc.candDropped[key+"|"+fmt.Sprint(c.Ord)] || !vc.inProp(c.Tags) {
+					continue
+				}
+				if g, ok := vc.tryBool(sc, c.E); ok {
+					st.assume(g)
+				}
+			}
 		}
 	}
 	fr.cuts[to] = newCut
